@@ -188,6 +188,18 @@ func (x *Exec) libCall(st *State, fn *ssa.Function, args []Value, pos token.Pos,
 		if x.pureMode {
 			x.pureFail = "unmodelled library call " + name
 		}
+		if name == "path/filepath.Ext" && len(res) == 1 {
+			// assumed library fact: the extension is a suffix of the path and of its last element
+			if rt, ok := res[0].(*Term); ok {
+				st.assume(App("str.suffixof", "Bool", rt, T(0)))
+				st.assume(App("str.suffixof", "Bool", rt, App("filepath_base", "String", T(0))))
+			}
+		}
+		if name == "path/filepath.Base" && len(res) == 1 {
+			if rt, ok := res[0].(*Term); ok {
+				st.assume(Eq(rt, App("filepath_base", "String", T(0))))
+			}
+		}
 		if x.onLibCall != nil {
 			x.onLibCall(st, name, args, res)
 		}
